@@ -11,7 +11,8 @@
 
    `first_plausible l i` (Spec/IOSpec.v): position i holds 0x47 followed by a header with
    adaptation_field_control <> 00 and PID outside 0x0004..0x000F, and no smaller position does. *)
-From Gots Require Import Base.Prelude Model.IO Spec.IOSpec Proofs.SyncProofs.
+From Gots Require Import Base.Prelude Model.IO Model.PacketWriter Model.Bufio Spec.IOSpec Proofs.SyncProofs
+  Proofs.WriterReadFrom Proofs.BufioRefines.
 Import SyncIO IOSpec.
 Local Open Scope N_scope.
 
@@ -53,6 +54,43 @@ Theorem C16_sync_total : forall l te, is_bytes l ->
 Proof. exact sync_total. Qed.
 Print Assumptions C16_sync_total.
 
+(* ---- the reader oracle discharged for a model of bufio.Reader ------------------------------------
+   Model/Bufio.v transcribes bufio.Reader's fill / ReadByte / UnreadByte / Peek (buffer indices r, w,
+   pending error, lastByte, at most 100 empty reads) over a scripted underlying io.Reader (the script
+   semantics of C18: `script_data s`, `script_err s`).  For EVERY buffer size and EVERY script without
+   (0, nil) reads (`nonempty_reads`), Sync over that bufio.Reader behaves exactly like Sync over the
+   oracle `start (script_data s) (script_err s)`: same offset, same error, and the states stay related
+   (`Rel`: what the reader will still deliver is the same).  So the three theorems above hold for
+   bufio.Reader of any size over any fragmentation; the bufio model itself is tied to the real
+   bufio.Reader by op io.syncb on every run (also on scripts with empty reads, incl. io.ErrNoProgress). *)
+Theorem C16_sync_over_bufio : forall size s, nonempty_reads (PacketWriter.Script s) ->
+  bsim (N * option N) (Bufio.sync_raw size s) (sync_raw (start (script_data s) (script_err s))).
+Proof. exact sync_over_bufio. Qed.
+Print Assumptions C16_sync_over_bufio.
+
+(* found: the offset is the least plausible position of the delivered data, and what the bufio
+   reader still holds (window ++ undelivered script data) is exactly the stream from there on *)
+Theorem C16_bufio_first_plausible : forall size s i,
+  nonempty_reads (PacketWriter.Script s) -> is_bytes (script_data s) -> first_plausible (script_data s) i ->
+  exists b', Bufio.sync_raw size s = Ok (N.of_nat i, None, b') /\
+             bdata b' = skipn i (script_data s) /\ st_err (Bufio.brd b') = script_err s.
+Proof. exact sync_bufio_found. Qed.
+Print Assumptions C16_bufio_first_plausible.
+
+(* not found: sync-not-found when the script ends with io.EOF, the script's own error otherwise *)
+Theorem C16_bufio_not_found : forall size s,
+  nonempty_reads (PacketWriter.Script s) -> is_bytes (script_data s) -> none_plausible (script_data s) ->
+  exists off b', Bufio.sync_raw size s = Ok (off, Some (map_err (script_err s)), b').
+Proof. exact sync_bufio_none. Qed.
+Print Assumptions C16_bufio_not_found.
+
+(* C05: no "tried to fill full buffer" panic, no out-of-window index, no endless fill loop *)
+Theorem C16_bufio_total : forall size s,
+  nonempty_reads (PacketWriter.Script s) -> is_bytes (script_data s) ->
+  Bufio.sync_raw size s <> Panic /\ Bufio.sync_raw size s <> Diverge.
+Proof. exact sync_bufio_total. Qed.
+Print Assumptions C16_bufio_total.
+
 (* F1 (DESIGN section 7), re-established in Coq: the loop as pinned in /repo before the repair
    (Model/IO.v sync_loop_pinned) falsifies the first clause: on 47 00 00 00 | 47 00 00 10 .. it reports
    offset 3 although the least plausible position is 4 (the reader itself is left at 4).  The
@@ -62,6 +100,19 @@ Theorem C16_F1_pinned_refuted :
     sync_pinned (start l E.EOF) = Ok (off, r) /\ off <> N.of_nat i /\ rest r = skipn i l.
 Proof. exact f1_pinned_refuted. Qed.
 Print Assumptions C16_F1_pinned_refuted.
+
+(* non-vacuity of the bufio theorems: 16-byte buffer, one-byte reads, reader error after the data *)
+Example C16_bufio_nonvacuous :
+  let s := map (fun b => ([b], @None N)) [71; 0; 0; 0; 71; 0; 0; 16; 1; 2; 3; 4; 5; 6; 7; 8; 9; 10; 11; 12] ++ [([], Some 60)] in
+  nonempty_reads (PacketWriter.Script s) /\ first_plausible (script_data s) 4 /\
+  (exists b', Bufio.sync_raw 16 s = Ok (4, None, b') /\ bdata b' = skipn 4 (script_data s)).
+Proof.
+  cbv zeta. split; [|split].
+  - cbn [nonempty_reads]. apply Forall_forall. intros ce Hin. cbn [map app] in Hin.
+    repeat (destruct Hin as [<-|Hin]; [first [left; discriminate|right; discriminate]|]). contradiction.
+  - split; [reflexivity|]. intros j Hj. destruct j as [|[|[|[|j]]]]; try reflexivity; lia.
+  - eexists. split; [vm_compute; reflexivity|]. vm_compute. reflexivity.
+Qed.
 
 (* non-vacuity: the F1 probe of DESIGN section 7 — one false sync byte (AFC = 00) before the
    true header; least plausible position 4, not 3 *)
